@@ -736,6 +736,21 @@ def apply (st : State) : Op → State × List Frame
   | .wake => (st, [])
   | .peer f => peer st f
 
+/-- the Go functions that sleep on `cc.cond` (bridged to the source: Bridge/C06 `cond_waiters`):
+graceful shutdown, the parked `RoundTrip` (`State.pendingOpen`), the body writers (`write`) -/
+def condWaiters : List String :=
+  ["ClientConn.Shutdown", "ClientConn.awaitOpenSlotForStreamLocked", "clientStream.awaitFlowControl"]
+
+/-- the Go functions behind the table `wakes` / the wake-up condition of `step`, each of which
+must reach a `cc.cond.Broadcast()` (bridged to the source: Bridge/C06 `wake_sites_broadcast`):
+a stream leaves `cc.streams` (`liveCount` drops); a stream is aborted — cancel, `Body.Close`,
+reset, stream error, GOAWAY; the upload is stopped; WINDOW_UPDATE; SETTINGS; the connection is
+torn down (`st1.closed`) -/
+def wakeSites : List String :=
+  ["ClientConn.forgetStreamID", "clientStream.abortStreamLocked", "clientStream.abortRequestBodyWrite",
+   "clientConnReadLoop.processWindowUpdate", "clientConnReadLoop.processSettingsNoWrite",
+   "clientConnReadLoop.cleanup"]
+
 /-- does the operation end with a `cc.cond.Broadcast()` (which is what lets a `RoundTrip`
 blocked in `awaitOpenSlotForStreamLocked` look again)? A stream was forgotten or aborted, a
 WINDOW_UPDATE was applied, or SETTINGS_INITIAL_WINDOW_SIZE was processed. (Unchanged code: a
